@@ -223,6 +223,8 @@ func (w *world) callback(state string, c *issuedCode, o tokOpts, rt string, rs r
 			// honoured the code only if S256(verifier) = challenge of the code; the code must belong to that initiation
 			if c.challenge != prevInit.challenge {
 				why = "code exchanged belongs to another initiation's challenge"
+			} else if w.lastVerifierSeen && prevInit.challenge != "" && s256(w.lastVerifier) != prevInit.challenge {
+				why = "the verifier presented at the token endpoint does not hash (S256) to the challenge sent in the most recent initiation"
 			}
 		}
 		if why != "" {
@@ -608,7 +610,8 @@ func (w *world) wait(d time.Duration) {
 
 var headerSpoofs = [][2]string{{"X-User-Groups", "admin"}, {"x-user-groups", "admin"}, {"X-USER-ROLES", "admin"}, {"X-User-Roles", "root,admin"}, {"X-Forwarded-User", "root@example.com"},
 	{"x-forwarded-user", "root@example.com"}, {"X-Auth-Request-User", "root@example.com"}, {"X-Auth-Request-Token", "forged.token.value"}, {"X-Tpl-Email", "forged@example.com"}, {"x-tpl-fail", "forged"},
-	{"Authorization", "Bearer forged"}, {"X-Tpl-Sub", "forged"}, {"X-Tpl-Rt", "forged"}, {"X-User-Groups", ""}, {"X-Unrelated", "kept"}, {"X-Tenant-Id", "forged-tenant"}, {"X-Tenant-ID", "forged-tenant-2"}, {"x-tenant-id", "forged-tenant-3"}, {"X-Lower-Name", "forged"}, {"x-lower-name", "forged"}, {"X-User-Sub", "forged-sub"}}
+	{"Authorization", "Bearer forged"}, {"X-Tpl-Sub", "forged"}, {"X-Tpl-Rt", "forged"}, {"X-User-Groups", ""}, {"X-Unrelated", "kept"}, {"X-Tenant-Id", "forged-tenant"}, {"X-Tenant-ID", "forged-tenant-2"}, {"x-tenant-id", "forged-tenant-3"}, {"X-Lower-Name", "forged"}, {"x-lower-name", "forged"}, {"X-User-Sub", "forged-sub"},
+	{"X-Tpl-Broken", "forged-under-a-configured-name"}, {"x-tpl-broken", "forged-2"}, {"X-Tpl-Partial", "forged"}, {"X-Tpl-Group", "forged"}}
 
 var acceptPool = []string{"", "text/html", "application/json", "text/event-stream", "text/event-stream, application/json", "*/*", "application/json;q=0.9,text/html", "TEXT/EVENT-STREAM", "text/html,application/xhtml+xml"}
 var methodPool = []string{"GET", "GET", "GET", "POST", "PUT", "DELETE", "OPTIONS", "HEAD", "PATCH"}
@@ -683,12 +686,21 @@ func (w *world) randomReqSpec0(rng *mrand.Rand, prop string) reqSpec {
 		for i := 0; i < 1+rng.Intn(3); i++ {
 			rs.hdrs = append(rs.hdrs, headerSpoofs[rng.Intn(len(headerSpoofs))])
 		}
+		if prop == "C10" && len(w.tmpls) > 0 && rng.Intn(2) == 0 { // every configured templated name, whatever became of its template
+			for _, tc := range w.tmpls {
+				rs.hdrs = append(rs.hdrs, [2]string{tc.name, "forged-" + tc.name})
+			}
+		}
 	}
 	if (prop == "C15" || prop == "C11") && rng.Intn(2) == 0 || rng.Intn(8) == 0 {
 		rs.xfProto = []string{"https", "http", "https"}[rng.Intn(3)]
 		if rng.Intn(2) == 0 {
 			rs.xfHost = []string{"public.example.org", "app.test:8443"}[rng.Intn(2)]
 		}
+	}
+	if (prop == "C17" || prop == "C11") && rng.Intn(4) == 0 { // forwarding headers as chained or broken proxies produce them
+		rs.xfProto = []string{"https,http", "https, http", "1https", "HTTPS", "ht tp", "https://", ""}[rng.Intn(7)]
+		rs.xfHost = []string{"app test", "app.test%zz", "app.test:http", "[::1", "app.test, proxy.internal", "a\"b.test", ""}[rng.Intn(7)]
 	}
 	if prop == "C16" && rng.Intn(2) == 0 {
 		rs.accept = []string{"", "text/html", "application/json", "<verif-marker>"}[rng.Intn(4)]
@@ -762,6 +774,7 @@ func familyHandler(t *testing.T) {
 func (w *world) scripted(prop string, sc int, rng *mrand.Rand) {
 	switch prop {
 	case "C03":
+		w.pkceLax = sc%3 == 1 // some providers accept a code_challenge and never check the verifier: the binding is the middleware's duty
 		switch sc % 6 {
 		case 0: // callback before any initiation, with and without parameters
 			w.callback("", nil, tokOpts{}, "", reqSpec{note: "callback before any initiation, no parameters"}, rng)
